@@ -123,6 +123,11 @@ func (r *realPatcher) patchPodBatchLabel(pods []*corev1.Pod, ctx *batchcontext.B
 			klog.InfoS("Pod batchID is not a number, skip patching", "pod", klog.KObj(pod), "rollout", r.logKey)
 			continue
 		}
+		if podBatchID < 1 || podBatchID > len(plannedUpdatedReplicasForBatches) {
+			// e.g. the label was written by a user, or by an earlier, longer release plan
+			klog.InfoS("Pod batchID is out of the range of release plan, skip patching", "pod", klog.KObj(pod), "batchID", podBatchID, "rollout", r.logKey)
+			continue
+		}
 		plannedUpdatedReplicasForBatches[podBatchID-1]--
 	}
 	klog.InfoS("updatedButUnpatchedPods amount calculated", "amount", len(updatedButUnpatchedPods),
